@@ -1,14 +1,62 @@
 (* C14 - Playlist Marshal/Unmarshal round-trips every field.
    Only property theorems (each closed by [exact]) and [Print Assumptions]; the model is
-   Model/Playlist*.v, the proofs Proofs/Playlist*.v. *)
+   Model/Playlist*.v, the proofs Proofs/Playlist*.v.
+
+   On the pinned tree Media.Marshal has three defects (finding F4), so the faithful model
+   refutes the full media statement ([.._refuted_..]); what holds is stated at full strength for
+   the model ([c14_media_roundtrip_image]: Unmarshal (Marshal p) is the F4 image of p) and as
+   the [.._partial] theorems under the hypothesis that excludes exactly the findings' inputs. *)
 From Coq Require Import List ZArith Bool String.
 From GoHls Require Import Model.PlaylistBase Model.PlaylistIdeal Model.Playlist Model.PlaylistSpec
-  Proofs.PlaylistRefute.
+  Proofs.PlaylistRefute Proofs.PlaylistIdeal Proofs.PlaylistMedia Proofs.PlaylistMulti Proofs.PlaylistC14
+  Proofs.PlaylistExamples.
 Import ListNotations.
 Local Open Scope string_scope.
 
-(* Finding F4 (a): a valid media playlist whose EXT-X-DISCONTINUITY-SEQUENCE differs from its
-   media sequence does not round-trip: Marshal prints the media sequence. *)
+(* ---- the hypotheses are satisfiable ---- *)
+(* the envelope assumed of FormatFloat/ParseFloat/time.Format/time.Parse has a model *)
+Theorem c14_oracle_envelope_satisfiable : oracle_ok z_oracles.
+Proof. exact z_oracles_ok. Qed.
+Print Assumptions c14_oracle_envelope_satisfiable.
+
+(* a rich media playlist (keys changing, parts, byte ranges, date-time, server control, skip,
+   preload hint) satisfies wf_media and the hypotheses of the partial theorems *)
+Theorem c14_example_media :
+  wf_media ex_media = true /\ f4_free ex_media = true
+  /\ opt_ok sc_canblockreload (m_servercontrol ex_media) = true.
+Proof. exact ex_media_ok. Qed.
+Print Assumptions c14_example_media.
+
+Theorem c14_example_multivariant : wf_multivariant ex_multivariant = true.
+Proof. exact ex_multivariant_ok. Qed.
+Print Assumptions c14_example_multivariant.
+
+(* ---- Media ---- *)
+(* For every oracle instance within the envelope and every media playlist value satisfying the
+   documented field requirements: Unmarshal (Marshal p) succeeds and reproduces, field by field
+   (durations to 10 us, date-times to 1 ms and the same zone offset, everything else exactly),
+   the F4 image of p: p with DiscontinuitySequence replaced by MediaSequence, Start dropped, and
+   the first attribute of a SERVER-CONTROL without CAN-BLOCK-RELOAD dropped. *)
+Theorem c14_media_roundtrip_image : forall (O : oracles), oracle_ok O -> forall p : Media,
+  wf_media p = true ->
+  exists p', media_unmarshal O (media_marshal O p) = Ok p' /\ media_eqvb (f4_image p) p' = true.
+Proof. exact media_roundtrip_image. Qed.
+Print Assumptions c14_media_roundtrip_image.
+
+(* the round trip proper, for the values the three defects leave alone *)
+Theorem c14_media_roundtrip_partial : forall (O : oracles), oracle_ok O -> forall p : Media,
+  wf_media p = true -> f4_free p = true -> media_roundtrip_ok O p = true.
+Proof. exact media_roundtrip_partial. Qed.
+Print Assumptions c14_media_roundtrip_partial.
+
+(* Marshal (Unmarshal (Marshal p)) = Marshal p unless SERVER-CONTROL lacks CAN-BLOCK-RELOAD *)
+Theorem c14_media_fixpoint_partial : forall (O : oracles), oracle_ok O -> forall p : Media,
+  wf_media p = true -> opt_ok sc_canblockreload (m_servercontrol p) = true ->
+  media_fixpoint_ok O p = true.
+Proof. exact media_fixpoint_partial. Qed.
+Print Assumptions c14_media_fixpoint_partial.
+
+(* Finding F4 (a): EXT-X-DISCONTINUITY-SEQUENCE carries the media sequence number *)
 Theorem c14_media_roundtrip_refuted_discseq :
   exists p, wf_media p = true /\ media_roundtrip_ok z_oracles p = false
             /\ media_marshal z_oracles p =
@@ -18,15 +66,15 @@ Theorem c14_media_roundtrip_refuted_discseq :
 Proof. exact media_roundtrip_refuted_discseq. Qed.
 Print Assumptions c14_media_roundtrip_refuted_discseq.
 
-(* Finding F4 (b): EXT-X-START of a media playlist is never printed. *)
+(* Finding F4 (b): EXT-X-START of a media playlist is never printed *)
 Theorem c14_media_roundtrip_refuted_start :
   exists p, wf_media p = true /\ media_roundtrip_ok z_oracles p = false
             /\ media_marshal z_oracles p = media_marshal z_oracles media_min.
 Proof. exact media_roundtrip_refuted_start. Qed.
 Print Assumptions c14_media_roundtrip_refuted_start.
 
-(* Finding F4 (c): EXT-X-SERVER-CONTROL without CAN-BLOCK-RELOAD starts with a comma; the
-   first attribute is lost on re-read and Marshal is not a fixpoint on its own output. *)
+(* Finding F4 (c): EXT-X-SERVER-CONTROL without CAN-BLOCK-RELOAD starts with a comma; the first
+   attribute is lost on re-read and Marshal is not a fixpoint on its own output *)
 Theorem c14_media_roundtrip_refuted_server_control :
   exists p, wf_media p = true /\ media_roundtrip_ok z_oracles p = false
             /\ media_fixpoint_ok z_oracles p = false
@@ -36,3 +84,13 @@ Theorem c14_media_roundtrip_refuted_server_control :
                ++ "#EXT-X-MEDIA-SEQUENCE:0" ++ lf ++ "#EXTINF:1.00000," ++ lf ++ "s.mp4" ++ lf.
 Proof. exact media_roundtrip_refuted_server_control. Qed.
 Print Assumptions c14_media_roundtrip_refuted_server_control.
+
+(* ---- Multivariant ---- *)
+(* round trip (every field exactly, EXT-X-START to 10 us) and fixpoint, no exception *)
+Theorem c14_multivariant_roundtrip : forall (O : oracles), oracle_ok O -> forall p : Multivariant,
+  wf_multivariant p = true ->
+  exists p', multivariant_unmarshal O (multivariant_marshal O p) = Ok p'
+    /\ multivariant_eqvb p p' = true
+    /\ multivariant_marshal O p' = multivariant_marshal O p.
+Proof. exact multivariant_roundtrip. Qed.
+Print Assumptions c14_multivariant_roundtrip.
